@@ -9,7 +9,9 @@
 (*   built  projection of the built tree (tags, classes, ordered children) *)
 (*   d      evaluation with derivatives   [err, kind, n, val, jshape, jac] *)
 (*   v      evaluation without derivatives [err, kind, n, val]             *)
-(*   r      direct evaluation (the oracle) [kind, n, val, jac, finite]     *)
+(*   r      direct evaluation (the oracle) [err, kind, n, val, jac,        *)
+(*          finite]; err: ZeroDivisionError / OverflowError; finite:       *)
+(*          no error and every number finite                               *)
 (*   exact  all numbers of d, v, r are exact rationals <<num, den>>        *)
 (*          (val = sequences of them, jac = sequences <<i, j, num, den>>   *)
 (*          of the non-zero entries); otherwise val / jac are empty and    *)
@@ -48,41 +50,58 @@ ExprEq(x, y) ==
          [] x[1] = "shift" -> x[2] = y[2] /\ ExprEq(x[3], y[3])
          [] OTHER -> FALSE
 
-OracleSane == Check("OracleSane",
+\* the clauses as predicates of the case, given the root kind k of the expression and its size n
+OracleSaneP(k, n) ==
   /\ IsRoot(E)
-  /\ C.r.kind = (CASE K[1] = "F" -> "float" [] K[1] = "V" -> "ndarray" [] OTHER -> "AdArray")
-  /\ C.r.n = N)
-
-Evaluates == Check("Evaluates", C.berr = "" /\ C.d.err = "" /\ C.v.err = "")
-
-ValueAgrees == Check("ValueAgrees", (Adm /\ C.berr = "" /\ C.d.err = "") =>
-  /\ C.d.kind = "AdArray" /\ C.d.n = N
-  /\ IF C.exact THEN C.d.val = C.r.val ELSE Close(C.q.dv))
-
-JacobianAgrees == Check("JacobianAgrees", (Adm /\ C.berr = "" /\ C.d.err = "" /\ C.d.kind = "AdArray") =>
-  /\ C.d.jshape = <<N, NDOF>>
-  /\ IF C.exact THEN JSet(C.d.jac) = JSet(C.r.jac) ELSE Close(C.q.dj))
-
-ValueOnlyAgrees == Check("ValueOnlyAgrees", (Adm /\ C.berr = "" /\ C.d.err = "" /\ C.v.err = "" /\ C.d.kind = "AdArray") =>
-  /\ C.v.kind = (IF K[1] = "F" THEN "float" ELSE "ndarray") /\ C.v.n = N
-  /\ IF C.exact THEN C.v.val = C.d.val ELSE Close(C.q.vv))
-
-PrevTimeNoDerivative == Check("PrevTimeNoDerivative", C.berr = "" =>
+  /\ C.r.err = "" => /\ C.r.kind = (CASE k[1] = "F" -> "float" [] k[1] = "V" -> "ndarray" [] OTHER -> "AdArray")
+                     /\ C.r.n = n
+\* building never depends on the state; evaluating may fail where the expression is undefined (division by zero)
+EvaluatesP == C.berr = "" /\ (Adm => C.d.err = "" /\ C.v.err = "")
+ValueAgreesP(k, n) == (Adm /\ C.berr = "" /\ C.d.err = "") =>
+  /\ C.d.kind = "AdArray" /\ C.d.n = n
+  /\ IF C.exact THEN C.d.val = C.r.val ELSE Close(C.q.dv)
+JacobianAgreesP(k, n) == (Adm /\ C.berr = "" /\ C.d.err = "" /\ C.d.kind = "AdArray") =>
+  /\ C.d.jshape = <<n, NDOF>>
+  /\ IF C.exact THEN JSet(C.d.jac) = JSet(C.r.jac) ELSE Close(C.q.dj)
+ValueOnlyAgreesP(k, n) == (Adm /\ C.berr = "" /\ C.d.err = "" /\ C.v.err = "" /\ C.d.kind = "AdArray") =>
+  /\ C.v.kind = (IF k[1] = "F" THEN "float" ELSE "ndarray") /\ C.v.n = n
+  /\ IF C.exact THEN C.v.val = C.d.val ELSE Close(C.q.vv)
+PrevTimeNoDerivativeP == C.berr = "" =>
   LET want == PrevSubs(E, 0, 0) IN
   /\ Len(C.prev) = Len(want)
   /\ \A j \in 1..Len(C.prev) :
        LET p == C.prev[j] IN
        /\ ExprEq(p.expr, want[j])
        /\ p.err = ""
-       /\ p.jnnz = 0                                       \* contributes no derivative
-       /\ p.n = Len(p.ref) \/ ~p.exact
-       /\ p.finite => IF p.exact THEN p.val = p.ref ELSE Close(p.q))   \* evaluates to the stored values
+       /\ p.jnnz = 0                                                    \* contributes no derivative
+       /\ p.finite => IF p.exact THEN p.val = p.ref ELSE Close(p.q)     \* evaluates to the stored values
+TreeConformsP == C.berr = "" => TreeEq(C.built, Build(E))
 
-TreeConforms == Check("TreeConforms", C.berr = "" => TreeEq(C.built, Build(E)))
+OracleSane == Check("OracleSane", OracleSaneP(K, N))
+Evaluates == Check("Evaluates", EvaluatesP)
+ValueAgrees == Check("ValueAgrees", ValueAgreesP(K, N))
+JacobianAgrees == Check("JacobianAgrees", JacobianAgreesP(K, N))
+ValueOnlyAgrees == Check("ValueOnlyAgrees", ValueOnlyAgreesP(K, N))
+PrevTimeNoDerivative == Check("PrevTimeNoDerivative", PrevTimeNoDerivativeP)
+TreeConforms == Check("TreeConforms", TreeConformsP)
 
 \* deviations in the band between the two tolerances are reported, never judged
 Band == (~Judging) \/ C.exact \/ ~Adm \/ C.d.err # "" \/ C.v.err # ""
         \/ (C.q.dv <= TolPass /\ C.q.dj <= TolPass /\ C.q.vv <= TolPass)
         \/ ~(Close(C.q.dv) /\ Close(C.q.dj) /\ Close(C.q.vv))
         \/ Tell("inconclusive", <<C.q.dv, C.q.dj, C.q.vv>>)
+
+\* all clauses in one invariant (Check never stops TLC: every clause of every case is judged and reported)
+Verdict == (~Judging) \/
+  LET k == RootKind(E, "deriv")
+      n == IF k[1] = "F" THEN 1 ELSE k[2]
+  IN /\ Check("OracleSane", OracleSaneP(k, n))
+     /\ Check("Evaluates", EvaluatesP)
+     /\ Check("ValueAgrees", ValueAgreesP(k, n))
+     /\ Check("JacobianAgrees", JacobianAgreesP(k, n))
+     /\ Check("ValueOnlyAgrees", ValueOnlyAgreesP(k, n))
+     /\ Check("PrevTimeNoDerivative", PrevTimeNoDerivativeP)
+     /\ Check("TreeConforms", TreeConformsP)
+     /\ Band
+
 =============================================================================
